@@ -250,6 +250,21 @@ def run(ctx):
                                   'can run BEFORE the thread it names has a frame in the log: a crash in between leaves a default thread that does not exist'), line=sv.line)
 
 
+def _does(P, callee, rx):
+    """the callee is, or (a workspace helper) reaches, a call matching rx."""
+    if not callee:
+        return False
+    if re.search(rx, callee):
+        return True
+    if callee in P.fns:
+        key = (callee, rx)
+        cache = P.__dict__.setdefault('_does_cache', {})
+        if key not in cache:
+            cache[key] = any(re.search(rx, y) for y in P.reach_fns([callee]))
+        return cache[key]
+    return False
+
+
 def tmp_private(ctx, rid):
     """a temporary file belongs to one final file."""
     P = ctx.prog
@@ -275,8 +290,27 @@ def tmp_private(ctx, rid):
                 fin_reads = reads_locals(f, r.args[1])
                 params = set(range(1, f.argc + 1))
                 missing = sorted(f.lname(x) for x in (fin_reads & params) - tmp_reads)
-                uniq = any(re.search(UNIQ, s_.callee) for s_ in f.sites() if s_.dest['l'] in tmp_reads)
+                uniq = any(_does(P, s_.callee, UNIQ) for s_ in f.sites() if s_.dest and s_.dest['l'] in tmp_reads)
                 ok = not missing or uniq
+                # a shared "write tmp, rename into place" helper gets BOTH names from its caller: judge the pair
+                # where the names are made
+                fr_ = f.root_local(r.args[1], through_calls=(r'::as_ref$', r'::deref$', r'::as_path$'))
+                if not ok and pl is not None and fr_ is not None and 1 <= pl <= f.argc and 1 <= fr_ <= f.argc and '{closure' not in p:
+                    callers = [cs_ for cs_ in P.callers('^' + re.escape(p) + '$') if len(cs_.args) >= max(pl, fr_)]
+                    if callers:
+                        ok = True
+                        missing = []
+                        for cs_ in callers:
+                            g_ = cs_.fn
+                            t_r = reads_locals(g_, cs_.args[pl - 1])
+                            f_r = reads_locals(g_, cs_.args[fr_ - 1])
+                            # upvars of a coroutine body count as its parameters (local 1)
+                            prm = set(range(1, g_.argc + 1))
+                            mis = sorted(str(g_.lname(x)) for x in (f_r & prm) - t_r)
+                            un_ = any(_does(P, s_.callee, UNIQ) for s_ in g_.sites() if s_.dest and s_.dest['l'] in t_r)
+                            if mis and not un_:
+                                ok = False
+                                missing = mis
                 ctx.ob(rid, f, 'tmp-private-to-final:' + c.name, ok, 'tmp path %s' % ('reads every parameter the final path reads' + (' (and a uniqueness source)' if uniq else '') if ok else
                        'does NOT depend on %s, which the final path does: the same tmp file serves several final files — concurrent writers overwrite each other\'s content before the rename' % missing), line=c.line)
     ctx.floor(rid, 'tmp + rename pairs', n, 15)
@@ -304,11 +338,11 @@ def tmp_unique_in_workspace(ctx, rid, why, crates=('rip_workspace', 'rip_tools')
                 tmp_reads = reads_locals(f, c.args[-1] if c.name == 'open' else c.args[0])
                 # a temporary is a name the function INVENTS (with_extension / with_file_name / a formatted name); writing a
                 # patch-named file and then moving it (`Update File` + `Move to`) is not one
-                if not any(re.search(r'::(with_extension|with_file_name|with_added_extension|set_extension|set_file_name)$|^alloc::fmt::format$', s_.callee or '') for s_ in f.sites() if s_.dest and s_.dest['l'] in tmp_reads):
+                if not any(_does(P, s_.callee, r'::(with_extension|with_file_name|with_added_extension|set_extension|set_file_name)$|^alloc::fmt::format$') and not re.search(r'::(safe_join|resolve_path|to_relative)$', s_.callee or '') for s_ in f.sites() if s_.dest and s_.dest['l'] in tmp_reads):
                     continue
                 n += 1
                 ctx.touch(f)
-                uniq = any(re.search(UNIQ, s_.callee or '') for s_ in f.sites() if s_.dest and s_.dest['l'] in tmp_reads)
+                uniq = any(_does(P, s_.callee, UNIQ) for s_ in f.sites() if s_.dest and s_.dest['l'] in tmp_reads)
                 ctx.ob(rid, f, 'workspace-tmp-unique:' + c.name, uniq, 'the temporary `%s` %s' % (f.lname(pl) or '?', 'carries a uniqueness source' if uniq else
                        'has a FIXED name derived from the target only: an existing file of that name in the user\'s workspace is clobbered and renamed away, outside the undo log and the checkpoint'), line=c.line)
     return n
